@@ -10,6 +10,7 @@ import (
 	pslog "github.com/elementsproject/peerswap/log"
 	"github.com/elementsproject/peerswap/swap"
 
+	"verifharness/sim"
 	"verifharness/stats"
 )
 
@@ -23,6 +24,7 @@ func TestMain(m *testing.M) {
 	pslog.SetLogger(nopLogger{})
 	swap.VerifSetPayTiming(200*time.Microsecond, 20*time.Millisecond)
 	swap.VerifSetNoBackoff(true)
+	stats.Starved = sim.Starved
 	code := m.Run()
 	stats.Flush()
 	os.Exit(code)
